@@ -292,7 +292,7 @@ def run(prop: str, tier: str) -> core.Report:
     kinds = sc.LEVEL_KINDS
     progs = []
     for n in range(0, depth + 1):
-        ks = kinds if n <= 3 else [k for k in kinds if k not in ("let_none", "with_none", "rec_none", "assert", "let_2cycle")]
+        ks = kinds if n <= 3 else [k for k in kinds if k not in ("let_none", "with_none", "rec_none", "assert", "let_2cycle", "let_z_is_a")]
         for levels in itertools.product(ks, repeat=n):
             if sum(1 for k in levels if k in sc.PASS_THROUGH) > 1:
                 continue
@@ -507,7 +507,7 @@ def run_c11(prop, tier):
     depth = 3 if tier == "quick" else 4
     items = []
     for n in range(0, depth + 1):
-        ks = sc.LEVEL_KINDS if n <= 3 else [k for k in sc.LEVEL_KINDS if k not in ("let_none", "with_none", "rec_none", "assert", "let_2cycle")]
+        ks = sc.LEVEL_KINDS if n <= 3 else [k for k in sc.LEVEL_KINDS if k not in ("let_none", "with_none", "rec_none", "assert", "let_2cycle", "let_z_is_a")]
         for levels in itertools.product(ks, repeat=n):
             if sum(1 for k in levels if k in sc.PASS_THROUGH) > 1:
                 continue
